@@ -118,14 +118,14 @@ CLAIMED = {
     "C24": dict(
         technique="guard-edge dominance of every WAL append by the capacity comparison + coupling check (fields read by the guard vs fields advanced on the acknowledged path, through callee bodies) + field-read coverage of the usage seed + same-call agreement between the admitted and the stored payload",
         text="Partial: every WAL append in put_internal is dominated by projected <= capacity_limit() with the failing edge returning CapacityExceeded, projected includes the "
-             "incoming payload, capacity_limit is ticket-or-tier, cached_payload_end is monotone; and the usage counter the guard reads must be advanced by the put path itself. The open-time seed of the usage counter ranges over every frame that owns payload bytes (no Frame field other than payload_offset/payload_length is read). Every prepared buffer whose length the capacity guard admits is the buffer stored in the WAL entry. Both WAL-growth paths move the usage counter (cached_payload_end) by delta.",
+             "incoming payload, capacity_limit is ticket-or-tier, cached_payload_end is monotone; and the usage counter the guard reads must be advanced by the put path itself. The open-time seed of the usage counter ranges over every frame that owns payload bytes (no Frame field other than payload_offset/payload_length is read). Every prepared buffer whose length the capacity guard admits is the buffer stored in the WAL entry. Both WAL-growth paths move the usage counter (cached_payload_end) by delta. The frame scan of the open-time seed leaves its loop only on iterator exhaustion.",
         note="Not decided: the numeric bound over histories. Known finding (open): the guard's counter is only advanced at commit, so un-committed puts are not counted. "
              "Untriaged candidate (not armed): enable_vec()/manifest.dimension are stored before the capacity check.",
         design_ref="DESIGN.md §4 C24"),
     "C42": dict(
         technique="field-store whitelist inside vacuum (+closures), data-flow identity of read/written payload by frame id, must-pass-through + read-before-rewrite and offset-before-advance ordering",
         text="Partial: inside vacuum only Frame.payload_offset/payload_length are stored; the bytes written for a frame are those read for the frame with the same id, "
-             "only on the Active edge, at the running cursor; commit succeeds before any payload moves and Ok is reached only through rebuild_indexes -> sync_all. The new offset is the cursor before it is advanced past the payload, and every payload is read before the first one is rewritten in place. rebuild_indexes (to which vacuum hands the file) never truncates below header.footer_offset.",
+             "only on the Active edge, at the running cursor; commit succeeds before any payload moves and Ok is reached only through rebuild_indexes -> sync_all. The new offset is the cursor before it is advanced past the payload, and every payload is read before the first one is rewritten in place. rebuild_indexes (to which vacuum hands the file) never truncates below header.footer_offset. The open-time seed of the payload-region end, where rebuild_indexes places the index segments after vacuum, scans every frame (no early loop exit; rule shared with C24).",
         note="Not decided: byte equality of content, equality of search/timeline results, crash-atomicity of the in-place rewrite.",
         design_ref="DESIGN.md §4 C42"),
     "C13": dict(
